@@ -1,5 +1,5 @@
 """C05 — signing is the specification's function of key, message and randomness (six sets, all modes)."""
-import hashlib
+import hashlib, json, os
 from vcore import Case
 from dlib import Q, Par, ALL, API_OF, keygen, bitpack
 import pyref
@@ -8,12 +8,20 @@ from props.c07 import mprime
 RULE = ("message lengths 0, 1, 33, 94 and every length that makes tr||M' straddle one or two SHAKE-256 blocks (32- and 64-byte tr, with/without "
         "context and OID); keys from seeds; deterministic, hedged (ML-DSA, scripted 32-byte rnd) and randomized (Dilithium, scripted 64-byte rho'') modes; "
         "the API wrappers with contexts and both pre-hashes; crafted secret keys (t0 at +-2^12, found with the independent Python signer) that force "
-        "the c*t0 and hint-count rejections; model = crate byte for byte on a subset chosen to need few attempts, crate = independent Python "
+        "the c*t0 and hint-count rejections; a committed corpus of (crafted key, message) pairs whose signing needs 37..165 rejections, so that the "
+        "ExpandMask counter L*kappa+i passes 255 (second counter byte), and of pairs for the gamma2=(q-1)/88 sets in which one attempt is rejected ONLY "
+        "by ||c*t0|| >= gamma2; model = crate byte for byte on a subset chosen to need few attempts, crate = independent Python "
         "Sign_internal on all. Evidence records the histogram of rejection causes seen. Non-trivial = every distinct (set, key, message, mode).")
 ASSUMPTIONS = ["termination is not provable (rejection sampling on hash output): the theorems are per fuel; evidence records the largest attempt count seen",
                "keys/messages sampled; rare rejection causes forced through crafted keys"]
 TIMEOUT = {"quick": 1500, "thorough": 3400}
 TRACE_HIST = {}
+CORPUS_DIR = os.path.join(os.path.dirname(os.path.dirname(os.path.dirname(os.path.abspath(__file__)))), "corpus")
+
+
+def corpus(name):
+    p = os.path.join(CORPUS_DIR, name)
+    return json.load(open(p)) if os.path.exists(p) else []
 
 
 def lengths(p, extra_prefix):
@@ -98,6 +106,18 @@ def gen(tier, rng):
                     out.append(Case("signature", cp, [zero, m, csk, 0, b""], tag, aux=("core", m, None)))
                     found += 1
                     break
+    # committed rare-path corpus (tools/mk_corpus.py): long rejection chains and c*t0-only rejections
+    seen = set()
+    for e in corpus("c05_ct0_rejections.json"):
+        m, csk = bytes.fromhex(e["msg"]), bytes.fromhex(e["sk"])
+        tags = ["in_domain", "crafted-key", "cause-ct0", "corpus"]
+        if e["set"] in seen or e["rejections"] > 8: tags.append("crate-only")
+        seen.add(e["set"])
+        out.append(Case("signature", e["set"], [bytes(Par(e["set"]).sig), m, csk, 0, b""], tags, aux=("core", m, None)))
+    for e in corpus("c05_long_chains.json"):
+        m, csk = bytes.fromhex(e["msg"]), bytes.fromhex(e["sk"])
+        out.append(Case("signature", e["set"], [bytes(Par(e["set"]).sig), m, csk, 0, b""],
+                        ["in_domain", "crafted-key", "long-chain", "counter-above-255", "corpus", "crate-only"], aux=("core", m, None)))
     return out
 
 
